@@ -61,6 +61,11 @@ func runSchedules(a CLIArgs) int {
 			sc.APMaxRestarts, sc.AFMaxRestarts = 0, 0
 		}
 		d.Strategy[Key] = sc
+		if sf.Config == "multi" {
+			replayMulti(d, sf, si, sch, &labels, &skipped)
+			d.Converge(60)
+			continue
+		}
 		if sf.Config == "settings" {
 			// behaviours of spec/SettingsSys.tla: the first label carries the initial node groups
 			replaySettings(d, sf, sch, &labels, &skipped)
@@ -80,68 +85,8 @@ func runSchedules(a CLIArgs) int {
 		}
 		for _, lab := range sch {
 			labels++
-			p := strings.Split(lab, ":")
-			var act Action
-			num := func(i int) int {
-				if len(p) > i {
-					n, _ := strconv.Atoi(p[i])
-					return n
-				}
-				return 0
-			}
-			str := func(i int) string {
-				if len(p) > i {
-					return p[i]
-				}
-				return ""
-			}
-			switch p[0] {
-			case "EDSReconcile":
-				act = Action{Op: "EDSReconcile", Key: Key}
-			case "ERSReconcile":
-				i := num(1)
-				if i < 1 || i > len(sf.Tmpls) {
-					skipped++
-					continue
-				}
-				act = Action{Op: "ERSReconcile", Key: Key, T: sf.Tmpls[i-1]}
-			case "Tick":
-				act = Action{Op: "Tick", V: "1"}
-			case "KReady", "KFinish", "KUnready", "KFail", "KRestart", "KLost":
-				act = Action{Op: p[0], N: str(1), I: num(2), V: "Error"}
-			case "ForeignPod":
-				act = Action{Op: "ForeignPod", Key: Key, N: str(1), V: "dup"}
-			case "NodeRemove":
-				act = Action{Op: "NodeRemove", N: str(1)}
-			case "NodeAdd":
-				act = Action{Op: "NodeAdd", N: str(1), V: strings.Join(sf.Tmpls, ","), W: "c;z=z1"}
-			case "NodeSetFits":
-				var fits []string
-				for _, c := range str(2) {
-					fits = append(fits, string(c))
-				}
-				act = Action{Op: "NodeSetFits", N: str(1), V: strings.Join(fits, ",")}
-			case "SetTemplate":
-				act = Action{Op: "SetTemplate", Key: Key, T: str(1)}
-			case "Toggle":
-				short := map[string]string{"ruPaused": "ru-paused", "frozen": "frozen"}[str(1)]
-				e, err := d.C.GetEDS("ns1", "foo")
-				if err != nil || short == "" {
-					skipped++
-					continue
-				}
-				v := "true"
-				if e.Annotations[AnnotationKey(short)] == "true" {
-					v = "false"
-				}
-				act = Action{Op: "SetAnnotation", Key: Key, V: short, W: v}
-			case "CmdValidate":
-				act = Action{Op: "Cmd", Key: Key, V: "canary-validate"}
-			case "CmdPause":
-				act = Action{Op: "Cmd", Key: Key, V: "canary-pause"}
-			case "CmdUnpause":
-				act = Action{Op: "Cmd", Key: Key, V: "canary-unpause"}
-			default:
+			act, ok := labelToAction(d, sf, Key, lab)
+			if !ok {
 				skipped++
 				continue
 			}
@@ -155,6 +100,126 @@ func runSchedules(a CLIArgs) int {
 	d.Flush()
 	fmt.Printf("{\"schedules\":%d,\"labels\":%d,\"skipped\":%d,\"events\":%d}\n", len(sf.Schedules), labels, skipped, d.NEvents)
 	return 0
+}
+
+// labelToAction maps a label of the model's action vocabulary to a harness action on the ExtendedDaemonSet `key`.
+func labelToAction(d *Driver, sf ScheduleFile, key, lab string) (Action, bool) {
+	p := strings.Split(lab, ":")
+	ns, name := splitKey(key)
+	var act Action
+	num := func(i int) int {
+		if len(p) > i {
+			n, _ := strconv.Atoi(p[i])
+			return n
+		}
+		return 0
+	}
+	str := func(i int) string {
+		if len(p) > i {
+			return p[i]
+		}
+		return ""
+	}
+	switch p[0] {
+	case "EDSReconcile":
+		act = Action{Op: "EDSReconcile", Key: key}
+	case "ERSReconcile":
+		i := num(1)
+		if i < 1 || i > len(sf.Tmpls) {
+			return act, false
+		}
+		act = Action{Op: "ERSReconcile", Key: key, T: sf.Tmpls[i-1]}
+	case "Tick":
+		act = Action{Op: "Tick", V: "1"}
+	case "KReady", "KFinish", "KUnready", "KFail", "KRestart", "KLost":
+		act = Action{Op: p[0], N: str(1), I: num(2), V: "Error"}
+		if key != Key || sf.Config == "multi" {
+			// several ExtendedDaemonSets: the k-th pod of THIS one on the node
+			act.Key = key
+		}
+	case "ForeignPod":
+		act = Action{Op: "ForeignPod", Key: key, N: str(1), V: "dup"}
+	case "NodeRemove":
+		act = Action{Op: "NodeRemove", N: str(1)}
+	case "NodeAdd":
+		act = Action{Op: "NodeAdd", N: str(1), V: strings.Join(sf.Tmpls, ","), W: "c;z=z1"}
+	case "NodeSetFits":
+		var fits []string
+		for _, c := range str(2) {
+			fits = append(fits, string(c))
+		}
+		act = Action{Op: "NodeSetFits", N: str(1), V: strings.Join(fits, ",")}
+	case "SetTemplate":
+		act = Action{Op: "SetTemplate", Key: key, T: str(1)}
+	case "Toggle":
+		short := map[string]string{"ruPaused": "ru-paused", "frozen": "frozen"}[str(1)]
+		e, err := d.C.GetEDS(ns, name)
+		if err != nil || short == "" {
+			return act, false
+		}
+		v := "true"
+		if e.Annotations[AnnotationKey(short)] == "true" {
+			v = "false"
+		}
+		act = Action{Op: "SetAnnotation", Key: key, V: short, W: v}
+	case "CmdValidate":
+		act = Action{Op: "Cmd", Key: key, V: "canary-validate"}
+	case "CmdPause":
+		act = Action{Op: "Cmd", Key: key, V: "canary-pause"}
+	case "CmdUnpause":
+		act = Action{Op: "Cmd", Key: key, V: "canary-unpause"}
+	default:
+		return act, false
+	}
+	return act, true
+}
+
+// replayMulti replays one behaviour of spec/Multi.tla (two ExtendedDaemonSets sharing the nodes): labels are "A|..." / "B|...".
+// Even schedules place B in another namespace under the same name, odd ones in the same namespace under another name.
+func replayMulti(d *Driver, sf ScheduleFile, si int, sch []string, labels, skipped *int) {
+	keys := map[string]string{"A": Key, "B": "ns2/foo"}
+	if si%2 == 1 {
+		keys["B"] = "ns1/bar"
+	}
+	for _, k := range []string{"A", "B"} {
+		sc := modelStrategy("canary")
+		sc.APMaxRestarts, sc.AFMaxRestarts = 0, 0
+		d.Strategy[keys[k]] = sc
+	}
+	for _, n := range sf.Nodes {
+		d.Apply(Action{Op: "NodeAdd", N: n, V: strings.Join(sf.Tmpls, ","), W: "c;z=z1"})
+	}
+	for _, k := range []string{"A", "B"} {
+		d.Apply(Action{Op: "CreateEDS", Key: keys[k], T: sf.Tmpls[0]})
+		ns, name := splitKey(keys[k])
+		_ = d.C.MutateEDS(ns, name, func(e *edsv1.ExtendedDaemonSet) {
+			zero, one := int32(0), int32(1)
+			e.Spec.Strategy.Canary.AutoPause.MaxRestarts = &zero
+			e.Spec.Strategy.Canary.AutoFail.MaxRestarts = &one
+		})
+	}
+	for _, lab := range sch {
+		*labels++
+		parts := strings.SplitN(lab, "|", 2)
+		if len(parts) != 2 || keys[parts[0]] == "" {
+			*skipped++
+			continue
+		}
+		act, ok := labelToAction(d, sf, keys[parts[0]], parts[1])
+		if !ok {
+			*skipped++
+			continue
+		}
+		if _, ok := d.Apply(act); !ok {
+			*skipped++
+		}
+	}
+	// what Scn.Unpause does, for both objects (recorded actions: the trace must account for every change of the store)
+	for _, k := range []string{"A", "B"} {
+		for _, a := range [][2]string{{"ru-paused", ""}, {"frozen", ""}, {"c-paused", "false"}, {"c-unpaused", "true"}} {
+			d.Apply(Action{Op: "SetAnnotation", Key: keys[k], V: a[0], W: a[1]})
+		}
+	}
 }
 
 // replaySettings replays one behaviour of spec/SettingsSys.tla: settings are created / deleted / reconciled, nodes relabelled,
